@@ -81,7 +81,7 @@ def _scan_error_as_violation(ctx: Ctx, rid: str):
                             f'no recognisable gate: {ex}', construct='ready-scan-shape')
 
 
-@rule('C02.READY-GATE', ['C02'])
+@rule('C02.READY-GATE', ['C02', 'C01'])
 def ready_gate(ctx: Ctx):
     """A task enters the ready list only if its pending-dependency set is empty."""
     rs, err = _scan_error_as_violation(ctx, 'C02.READY-GATE')
@@ -489,7 +489,7 @@ def loop_cond(ctx: Ctx):
 # construction phase
 
 
-@rule('C02.EDGES', ['C02'])
+@rule('C02.EDGES', ['C02', 'C01', 'C17', 'C11'])
 def edges(ctx: Ctx):
     """For every inserted task each dependency is registered in both directions, and dependencies are
     themselves inserted (recursion / worklist)."""
@@ -774,7 +774,7 @@ def use_cache_truth(ctx: Ctx):
 # completion phase: unblocking
 
 
-@rule('C02.UNBLOCK-ONLY-ON-COMPLETE', ['C02'])
+@rule('C02.UNBLOCK-ONLY-ON-COMPLETE', ['C02', 'C01'])
 def unblock_only_on_complete(ctx: Ctx):
     """Pending-dependency sets shrink only in the completion phase; the completion method is only
     called from the consumer loop with the yielded task."""
@@ -809,7 +809,7 @@ def unblock_only_on_complete(ctx: Ctx):
                      'other than the one the runner yielded')
 
 
-@rule('C11.COMPLETE-BOTH', ['C11', 'C10'])
+@rule('C11.COMPLETE-BOTH', ['C11', 'C10', 'C17', 'C05'])
 def complete_both(ctx: Ctx):
     """Every outcome reaches the completion method; there the unblocking of dependents is
     unconditional (not control-dependent on success) and complete."""
